@@ -9,6 +9,9 @@
 (*   (no discipline, exceptions included); only representation invariants are claimed; the     *)
 (*   behaviours are exported so that the models of etree.py / dom.py are bound to the real      *)
 (*   wrapper classes outside the parser's patterns too.                                        *)
+(* Mode "lifecycle": one builder object over several parses, each abandoned at an arbitrary point (also in  *)
+(*   the document prologue, before the root element exists) and followed by reset(); same theorems: after  *)
+(*   reset() all three stores are the empty document again, whatever was left behind.                      *)
 (* Every state is exported (history + predicted rows, attributes, exception, primitive log).   *)
 EXTENDS TreeStore, TLC, Json
 CONSTANTS MaxOps, MaxNodes, Mode, Theme, NsOn, Export, CheckNoTypeError
@@ -83,8 +86,24 @@ FreeOK(c) ==
       [] c.op = "reparent" -> c.s # c.c /\ c.c \notin Below(c.s)
       [] OTHER -> TRUE
 
-Init == /\ A = StoreInit("A", NsOn) /\ E = StoreInit("E", NsOn) /\ D = StoreInit("D", NsOn)
-        /\ cl = ClientInit /\ hist = <<>> /\ fin = FALSE
+\* ---- lifecycle mode: ONE tree-builder object over several parses; a parse may be abandoned at any point, in particular in
+\* the document prologue (comments / doctype in the Document, no root element yet); reset() starts the next one ----
+LifeOps ==
+    {[Op("comment") EXCEPT !.d = X, !.where = "doc"] : z \in {z \in {1} : Room(1)}}
+    \cup (IF cl.open = <<>>
+          THEN {[Op("doctype") EXCEPT !.n = N_html, !.where = wh, !.d = X] : wh \in {wh \in {"", "ids"} : Room(1)}}
+               \cup {[Op("root") EXCEPT !.ns = HtmlNsName] : z \in {z \in {1} : Room(1)}}
+          ELSE {[Op("elem") EXCEPT !.n = N_b, !.ns = HtmlNsName] : z \in {z \in {1} : Room(1)}}
+               \cup {[Op("text") EXCEPT !.d = X], [Op("comment") EXCEPT !.d = X, !.where = "cur"]})
+    \cup {o \in {Op("reset")} : hist # <<>> /\ hist[Len(hist)].t # "reset"}
+LifeNext == \E op \in LifeOps :
+                 /\ A' = StoreStep("A", A, cl, op) /\ E' = StoreStep("E", E, cl, op) /\ D' = StoreStep("D", D, cl, op)
+                 /\ cl' = ClientStep(cl, op) /\ hist' = Append(hist, op)
+                 /\ fin' = (E'.exc # "" \/ D'.exc # "")
+
+Init == /\ hist = <<>> /\ fin = FALSE
+        /\ IF Mode = "lifecycle" THEN A = AInit /\ E = EInit /\ D = DInit /\ cl = ClientInit0
+           ELSE A = StoreInit("A", NsOn) /\ E = StoreInit("E", NsOn) /\ D = StoreInit("D", NsOn) /\ cl = ClientInit
 ParserNext == \E op \in ParserOps :
                  /\ A' = StoreStep("A", A, cl, op) /\ E' = StoreStep("E", E, cl, op) /\ D' = StoreStep("D", D, cl, op)
                  /\ cl' = ClientStep(cl, op) /\ hist' = Append(hist, op)
@@ -94,10 +113,10 @@ FreeNext == \E c \in {c \in FreeCalls : FreeOK(c)} :
                  /\ cl' = IF c.op \in {"new", "clone"} THEN [cl EXCEPT !.next = @ + 1, !.nm = Append(@, <<>>)] ELSE cl
                  /\ hist' = Append(hist, c)
                  /\ fin' = (E'.exc # "" \/ D'.exc # "")           \* an exception ends the behaviour
-Next == ~fin /\ Len(hist) < MaxOps /\ IF Mode = "parser" THEN ParserNext ELSE FreeNext
+Next == ~fin /\ Len(hist) < MaxOps /\ CASE Mode = "parser" -> ParserNext [] Mode = "lifecycle" -> LifeNext [] OTHER -> FreeNext
 
 \* ---- theorems ----
-P == Mode = "parser"
+P == Mode \in {"parser", "lifecycle"}
 ThmNoException == P => NoException(E, D)
 ThmRows        == P /\ NoException(E, D) => RowsAgree(A, E, D, cl)
 ThmRefinement  == P /\ NoException(E, D) => Refines(A, E, D, cl)
